@@ -343,6 +343,19 @@ def _transformer_cases(ctx, reqs, pend):
                      (s_r2p, {'m': r2p.affine[:3, :3], 't': r2p.affine[:3, 3]} if s_r2p == 'ok' else r2p), tol_i))
         if not okall:
             continue
+        # batches of every size incl. 0: an empty batch gives an empty result of the right width, a batch = its points one by one
+        empties = [(p2r, np.zeros((0, 2), dtype=int), 3), (r2p, np.zeros((0, 3)), 3), (i2r, np.zeros((0, 2)), 3), (r2i, np.zeros((0, 3)), 3),
+                   (sp.ReferenceToPixelTransformer(spacing_between_slices=sbs, round_output=False, drop_slice_index=True, **args), np.zeros((0, 3)), 2),
+                   (sp.ReferenceToPixelTransformer(spacing_between_slices=sbs, round_output=True, drop_slice_index=True, **args), np.zeros((0, 3)), 2),
+                   (sp.ReferenceToImageTransformer(spacing_between_slices=sbs, drop_slice_coord=True, **args), np.zeros((0, 3)), 2)]
+        for tr0, e0, w0 in empties:
+            st0, out0 = _call(tr0, e0)
+            if st0 != 'ok' or out0.shape != (0, w0):
+                ctx.fail(dict(base, fn=type(tr0).__name__ + ' on an empty batch'), f'{st0}: {out0 if st0 != "ok" else out0.shape}', site='batch')
+        big = np.array(_pts_int(r, r.choice([1, 2, 5, 9])), dtype=int)
+        one_by_one = np.vstack([p2r(big[k:k + 1]) for k in range(len(big))])
+        if np.abs(p2r(big) - one_by_one).max() > 1e-9 * (1 + np.abs(one_by_one).max()):
+            ctx.fail(dict(base, fn='batch = points one by one', n=len(big)), 'differs', site='batch')
         ia = np.array(idx, dtype=int)
         ref = p2r(ia)
         # round trip pixel -> reference -> pixel
